@@ -111,7 +111,7 @@ func init() {
 			"agg_multi_target", "agg_multi_target__count", "agg_multi_target__sum", "agg_multi_target__avg", "agg_multi_target__min", "agg_multi_target__max",
 			"agg_multi_target_minima_differ", "agg_multi_target_maxima_differ", "agg_multi_target_in_group", "agg_multi_target_top_level", "agg_multi_target_inner_filter",
 			"signed_commit_queries_without_signature", "signed_commit_queries_with_signature", "malformed_requests", "pathological_requests", "memstore_requests", "requests_answered_error",
-			"alias_numeric_laws", "alias_numeric_data_int_literal_float", "alias_numeric_data_float_literal_int", "alias_numeric_literal_ties_with_a_value"},
+			"agg_inline_array_offset-only", "agg_inline_array_slice_shorter_than_array", "alias_on_aggregate_rows_judged", "alias_numeric_laws", "alias_numeric_data_int_literal_float", "alias_numeric_data_float_literal_int", "alias_numeric_literal_ties_with_a_value"},
 		Assumptions: []string{
 			"null sorts before every value (ASC); the documentation does not say so, the rule is the implementation's and is used only to judge order keys",
 			"comparisons that involve null are outside the reference evaluator (three-valued: such rows are not judged); they are covered by the metamorphic laws only",
@@ -268,6 +268,8 @@ func c08RunData(ctx context.Context, c core.Case, p c08Params, r *core.Rec) {
 	arng := rand.New(rand.NewPCG(c.Seed, 808))
 	for q := 0; q < 3+p.Queries/40 && !e.ex.Hung; q++ {
 		e.aliasNumeric(arng)
+		e.aggInline(arng)
+		e.aliasOnAggregate(arng)
 	}
 	if c.Index%16 == 0 {
 		r.Sample(map[string]any{"kind": c.Kind, "documents": len(ds.U), "data_signature": e.sig, "first_documents": firstN(ds.U, 3)})
